@@ -2,7 +2,7 @@
    `orc` is the blob oracle (vellum / roaring / snappy decoding done by the harness co-process). *)
 From Coq Require Import List NArith ZArith Bool.
 Import ListNotations.
-Require Import Sx Bytes Kernel Footer Ref Spec Wire Layout SpecMerge Iter Iter1 Automata Dict Pool BuildReuse IO Cancel VecSpec VecCache VecFault Enum.
+Require Import Sx Bytes Kernel Footer Ref Spec Wire Layout SpecMerge Iter Iter1 Automata Dict Pool BuildReuse IO Cancel VecSpec VecCache VecFault Enum BuildAlg.
 Open Scope N_scope.
 
 (* ---- C20: (1 ops) with op 0 = AddRef, 1 = DecRef/Close ---- *)
@@ -368,6 +368,17 @@ Definition h_enum (args : list sx) : sx :=
   | _ => sxerr 20
   end.
 
+(* ---- C01/C10: (21 batch seed) -> the dictionaries computed by the builder ALGORITHM (ids in
+   first-seen order, hits appended per document, keys sorted last) with term orders scrambled by seed ---- *)
+Definition h_builder (args : list sx) : sx :=
+  match args with
+  | [b; A seed] => match batch_of_sx b with
+                   | Some bt => L (map (fun e => L [B (fst e); sx_of_dict (snd e)]) (run_build bt seed))
+                   | None => sxerr 21
+                   end
+  | _ => sxerr 21
+  end.
+
 Definition handle (orc : sx -> sx) (req : sx) : sx :=
   match req with
   | L (A k :: args) =>
@@ -388,6 +399,7 @@ Definition handle (orc : sx -> sx) (req : sx) : sx :=
       else if k =? 15 then h_vecfault args
       else if k =? 18 then h_reuse args
       else if k =? 20 then h_enum args
+      else if k =? 21 then h_builder args
       else sxerr 0
   | _ => sxerr 0
   end.
